@@ -25,18 +25,18 @@ func gte(root map[string]any, at any, args ...any) any {
 		switch t0 := evalArg(root, at, args[0]).(type) {
 		case float32, float64,
 			int, int8, int16, int32, int64, uint, uint8, uint16, uint32, uint64:
-			f0, _ := asFloat(t0)
+			var prev any = t0
 			for _, arg := range args[1:] {
 				v := evalArg(root, at, arg)
-				f, ok := asFloat(v)
+				c, ok := compareNums(prev, v)
 				if !ok {
 					panic(fmt.Errorf("gte of a number must be another number, not %T", v))
 				}
-				if f0 < f {
+				if c < 0 {
 					answer = false
 					break
 				} else {
-					f0 = f
+					prev = v
 				}
 			}
 		case string:
